@@ -8,7 +8,7 @@ import Refine.Model.Geom
   the log-Euclidean combination once the donor is known; `Model/Guards.lean`, `Model/Unit.lean`,
   `Model/Quality.lean`: the acceptance tests) in
 
-  * `ref_interp_locate_node`, `ref_interp_locate_between`                              (ref_interp.c)
+  * `ref_interp_locate_node`, `ref_interp_locate_between` (`betweenWalk`, `betweenWalks`, `betweenFinish`)  (ref_interp.c)
   * `ref_metric_interpolate_node`, `ref_metric_interpolate_between`                    (ref_metric.c)
   * the back-off loops of `ref_smooth_no_geom_edge_improve`, `ref_smooth_no_geom_tri_improve`,
     `ref_smooth_tet_improve` (and, with identical bookkeeping, their meshlink / geometry siblings)  (ref_smooth.c)
